@@ -356,6 +356,7 @@ func expandSchemaRef(target Schema, parentRefs []string, resolver *schemaLoader,
 		// - denormalization means that a new local file ref is set relative to the original basePath
 		debugLog("short circuit circular ref: basePath: %s, normalizedPath: %s, normalized ref: %s",
 			basePath, normalizedBasePath, normalizedRef.String())
+		verifEv("cut", normalizedRef.String())
 		if !resolver.options.AbsoluteCircularRef {
 			target.Ref = denormalizeRef(normalizedRef, resolver.context.basePath, resolver.context.rootID)
 		} else {
@@ -376,6 +377,7 @@ func expandSchemaRef(target Schema, parentRefs []string, resolver *schemaLoader,
 	}
 
 	parentRefs = append(parentRefs, normalizedRef.String())
+	verifEv("follow", normalizedRef.String(), basePath)
 	transitiveResolver := resolver.transitiveResolver(basePath, target.Ref)
 
 	basePath = resolver.updateBasePath(transitiveResolver, normalizedBasePath)
